@@ -40,21 +40,22 @@ Definition padded_plaintext (block : Z) (s : scoped) : res bytes :=
   let padded_len := if 0 <? rem then scoped_len + block - rem else scoped_len in
   slice_to (data b) padded_len.
 
-(* encrypt: returns (new key state, ciphertext, msgPrivacyParameters) *)
-Definition priv_encrypt (k : priv_key) (s : scoped) (boots time : Z) : res (priv_key * bytes * bytes) :=
+(* encrypt: returns the new key state (the salt counter advances even when serialisation fails afterwards)
+   and (ciphertext, msgPrivacyParameters) *)
+Definition priv_encrypt (k : priv_key) (s : scoped) (boots time : Z) : priv_key * res (bytes * bytes) :=
   match pk_alg k with
-  | PNoPriv => Err NotImplemented
+  | PNoPriv => (k, Err NotImplemented)
   | PDes =>
     let pp := be32 (wrap32 boots) ++ be32 (pk_salt k) in
     let k' := {| pk_alg := PDes; pk_key := pk_key k; pk_pre_iv := pk_pre_iv k; pk_salt := wrap32 (pk_salt k + 1) |} in
     let iv := Modes.xor_bytes pp (pk_pre_iv k) ++ zeros (8 - Nat.min 8 (length (pk_pre_iv k))) in
-    pt <- padded_plaintext DES_BLOCK_SIZE s ;;
-    Ok (k', Modes.cbc_encrypt (DES.des_encrypt_block (pk_key k)) 8 iv pt, pp)
+    (k', pt <- padded_plaintext DES_BLOCK_SIZE s ;;
+         Ok (Modes.cbc_encrypt (DES.des_encrypt_block (pk_key k)) 8 iv pt, pp))
   | PAes =>
     let pp := be32 (wrap32 boots) ++ be32 (wrap32 time) ++ be64 (pk_salt k) in
     let k' := {| pk_alg := PAes; pk_key := pk_key k; pk_pre_iv := pk_pre_iv k; pk_salt := wrap64 (pk_salt k + 1) |} in
-    pt <- padded_plaintext AES_BLOCK_SIZE s ;;
-    Ok (k', Modes.cfb_encrypt (AES.aes128_encrypt_block (pk_key k)) 16 pp pt, dropz 8 pp)
+    (k', pt <- padded_plaintext AES_BLOCK_SIZE s ;;
+         Ok (Modes.cfb_encrypt (AES.aes128_encrypt_block (pk_key k)) 16 pp pt, dropz 8 pp))
   end.
 
 (* decrypt: the plaintext written into the skipped region of the private buffer, then parsed as a scoped PDU *)
